@@ -112,6 +112,12 @@ def run(prop, tier, seed, replay):
                     else:
                         edges = 0.1 + 0.1 * np.arange(B + 1)
                     ck.count("stratum=equal-width-literal-edges")
+                if ci % 20 in (5, 14):
+                    # stratum: MANY bins (more than a byte / a signed byte can index), objects on edges across the whole
+                    # range and above zmax — index arithmetic of the tree builder must not wrap
+                    B = rng.choice([260, 300, 515])
+                    edges = 0.01 + 0.005 * np.arange(B + 1)
+                    ck.count("stratum=many-bins")
                 closed = ["left", "right"][(ci // 8) % 2 if ci % 4 == 3 else ci % 2]
                 P = rng.choice([1, 2, 3, 4])
                 weighted = (ci // 2) % 2 == 0
